@@ -101,7 +101,7 @@ def _plain(which):
 
 
 def phases(tier):
-    n_ac, n_other, n_mk = (12000, 2000, 3000) if tier == "quick" else (800000, 100000, 100000)
+    n_ac, n_other, n_mk = (12000, 2000, 3000) if tier == "quick" else (240000, 30000, 40000)
     return [
         Phase("plain-ac", "gen", strategy=lambda: _plain("ac"), n=n_ac),
         Phase("plain-hs", "gen", strategy=lambda: _plain("hs"), n=n_other),
